@@ -374,17 +374,21 @@ class Tensor:
         # Topological order all of the children in the graph 
         # (init gradients for those who are going to need it)
         ordered_nodes = []
-        visited_nodes = set()
-        def visit_node(node):
-            if node not in visited_nodes:
-                visited_nodes.add(node)
-                for child in node._children:
-                    # leaves accumulate across calls; non-leaf buffers always start from zero
-                    if child.requires_grad and (child._grad is None or not child.is_leaf):
-                        child.zero_()
-                    visit_node(child)
+        visited_nodes = {self}
+        stack = [(self, iter(self._children))] # explicit stack: same post-order as the recursive visit, any depth
+        while stack:
+            node, children = stack[-1]
+            child = next(children, None)
+            if child is None:
+                stack.pop()
                 ordered_nodes.append(node)
-        visit_node(self)
+                continue
+            # leaves accumulate across calls; non-leaf buffers always start from zero
+            if child.requires_grad and (child._grad is None or not child.is_leaf):
+                child.zero_()
+            if child not in visited_nodes:
+                visited_nodes.add(child)
+                stack.append((child, iter(child._children)))
 
         # Go one tensor at a time and apply the chain rule to get its gradient
         if not self.matches_shape(grad):
